@@ -250,6 +250,19 @@ theorem short_step {src : Nat → UInt8} (s : XDisk) (hinv : XInv src s) (g : DS
     rw [okOps_allOk] at this
     exact this
 
+/-! ### a snapshot commit that fails (session 5) -/
+
+theorem commitFail_okOps_mem (r : DRdb) (chunk : Bytes) (ren rmOk : Bool) :
+    ∀ o ∈ okOps (commitFailAtts r chunk ren rmOk),
+      o = .append (rdbTmpName r.left r.size) chunk ∨ o = .remove (rdbTmpName r.left r.size) := by
+  intro o ho
+  cases ren <;> cases rmOk <;> simp [commitFailAtts, okOps] at ho <;> simp [ho]
+
+theorem commitFail_okOps_names (r : DRdb) (chunk : Bytes) (ren rmOk : Bool) :
+    ∀ o ∈ okOps (commitFailAtts r chunk ren rmOk), o.names = [rdbTmpName r.left r.size] := by
+  intro o ho
+  rcases commitFail_okOps_mem r chunk ren rmOk o ho with rfl | rfl <;> rfl
+
 /-! ### every step -/
 
 theorem xstep_ok {src : Nat → UInt8} {P : Nat → Nat → Bytes → Prop} (s : XDisk) (x : XOp)
@@ -336,6 +349,44 @@ theorem xstep_ok {src : Nat → UInt8} {P : Nat → Nat → Bytes → Prop} (s :
           rw [e] at hr'
           cases hr'
       · exact xbase_ok s .rdbClose hinv trivial trivial (noP _ (by intro c e; cases e))
+  | rdbCommitFail chunk ren rmOk =>
+    simp only [xstep]
+    cases hr : s.d.rdb with
+    | none =>
+      exact xbase_ok s (.rdbAppend chunk) hinv hok trivial
+        (fun r c _ hr' => by rw [hr] at hr'; cases hr')
+    | some r =>
+      simp only []
+      split
+      · rename_i hc
+        simp only [Bool.and_eq_true, decide_eq_true_eq] at hc
+        obtain ⟨hw, _⟩ := hc
+        have hnames : ∀ o ∈ okOps (commitFailAtts r chunk ren rmOk), o.names = [rdbTmpName r.left r.size] :=
+          commitFail_okOps_names r chunk ren rmOk
+        have e : (s.d.step .rdbClose).1 = { s.d with rdb := none, readers := closeRdbReaders s.d.readers } := by
+          simp only [Disk.step, hr, hw, if_true]
+        refine StepOk.mk' rfl ?_ ?_ ⟨hinv.dinv.step .rdbClose trivial, HistTrue_step hinv.hist .rdbClose trivial, ?_, ?_⟩
+        · exact Pos.ofAll (fun o ho fs' => by
+            rcases commitFail_okOps_mem r chunk ren rmOk o ho with rfl | rfl
+            · intro c _; exact contentTrue_not_aof _ rfl
+            · trivial)
+        · exact Pos.ofAll (fun o ho fs' => by
+            rcases commitFail_okOps_mem r chunk ren rmOk o ho with rfl | rfl
+            · rfl
+            · trivial)
+        · intro x hx
+          rw [e] at hx
+          obtain ⟨hdr, hh, hget⟩ := hinv.files x (by simpa [Disk.all] using hx)
+          refine ⟨hdr, hh, ?_⟩
+          rw [get_applyAll_other _ _ _ (fun o ho => by rw [hnames o ho]; simp [aofName, rdbTmpName])]
+          exact hget
+        · intro r' hr'
+          rw [e] at hr'
+          cases hr'
+      · rename_i hc
+        refine xbase_ok s (.rdbAppend chunk) hinv hok trivial (fun r' c e' hr' hw hlen => ?_)
+        rw [hr] at hr'; cases hr'; cases e'
+        exact absurd (by simp [hw, hlen]) hc
   | gcRmFail stuck all =>
     simp only [xstep]
     have hrm : ∀ o ∈ okOps ((gcOpsZ s.d s.zombies).map (fun o => (⟨o, !gcStuck stuck all o⟩ : Att))),
